@@ -368,9 +368,17 @@ pub fn run(args: &Args) {
                 let frame_len = if m128 { FRAME_128 } else { FRAME_48 };
                 for _ in 0..beam {
                     // finish the current frame, then place one write at a chosen time of the next one
-                    let off = r.below(6912) as u16;
-                    let tw = match r.below(3) {
+                    // any byte of the display file; half of the time one at an end of something: the first and last cell of
+                    // the picture, of a line, of a third, of the attribute area
+                    let off = if r.chance(1, 2) {
+                        *r.pick(&[0u16, 0, 1, 31, 32, 255, 256, 2047, 2048, 4095, 4096, 6143, 6144, 6144, 6145, 6175, 6176, 6911])
+                    } else {
+                        r.below(6912) as u16
+                    };
+                    let tw = match r.below(4) {
                         0 => r.below(frame_len as u64 - 200) as usize + 100,
+                        // long before the ULA starts to fetch the picture / after it has finished
+                        1 => if r.chance(2, 3) { 100 + r.below(14_000) as usize } else { frame_len - 200 - r.below(10_000) as usize },
                         _ => {
                             // around the beam time of that very byte
                             let (t0, line) = if m128 { (14362usize, 228usize) } else { (14336usize, 224usize) };
